@@ -712,7 +712,9 @@ func fieldReplacement(rep *reporter, bases []*baseTx, signers []sgn, deadline ti
 func vrsLattice(rep *reporter, bases []*baseTx, deadline time.Time) {
 	halfN := new(big.Int).Rsh(curveN, 1)
 	add := func(x *big.Int, d int64) *big.Int { return new(big.Int).Add(x, big.NewInt(d)) }
-	bound := []*big.Int{big.NewInt(0), big.NewInt(1), halfN, add(halfN, 1), add(curveN, -1), curveN, add(curveN, 1), max256}
+	// ... and values wider than 32 bytes, which only the RLP form can carry
+	p256 := new(big.Int).Lsh(big.NewInt(1), 256)
+	bound := []*big.Int{big.NewInt(0), big.NewInt(1), halfN, add(halfN, 1), add(curveN, -1), curveN, add(curveN, 1), max256, p256, add(p256, 1), new(big.Int).Lsh(big.NewInt(1), 300)}
 	var capped atomic.Bool
 	var mu sync.Mutex
 	ev.ParallelFor(len(bases), func(i int) {
